@@ -55,6 +55,35 @@ func malformedCall(srv pb.DrummerServer, kind string) string {
 		return codeStr(srv.SetRegions(ctx(), &pb.Regions{Region: []string{"r1"}, Count: []uint64{2, 1}}))
 	case "countsonly":
 		return codeStr(srv.SetRegions(ctx(), &pb.Regions{Count: []uint64{3}}))
+	case "badtype1", "badtype3", "badtypeneg":
+		// Change.Type is an open enum on the wire: any value but CREATE is malformed
+		t := map[string]int32{"badtype1": 1, "badtype3": 3, "badtypeneg": -1}[kind]
+		return codeStr(srv.SubmitChange(ctx(), &pb.Change{Type: pb.Change_Type(t), ShardId: 7, Members: []uint64{1, 2, 3}, AppName: "app"}))
+	case "donectx":
+		// the four updating calls under a context that is already cancelled, and one that has expired: an error each
+		// time (a panic here would kill the child), and nothing changes
+		cc, cancel := context.WithCancel(context.Background())
+		cancel()
+		ec, cancel2 := context.WithDeadline(context.Background(), time.Now().Add(-time.Second))
+		defer cancel2()
+		for _, c := range []context.Context{cc, ec} {
+			if _, err := srv.SubmitChange(c, &pb.Change{Type: pb.Change_CREATE, ShardId: 7, Members: []uint64{1, 2, 3}, AppName: "app"}); err == nil {
+				return "accepted:SubmitChange"
+			}
+			if _, err := srv.SetRegions(c, &pb.Regions{Region: []string{"r"}, Count: []uint64{3}}); err == nil {
+				return "accepted:SetRegions"
+			}
+			if _, err := srv.SetBootstrapped(c, &pb.Empty{}); err == nil {
+				return "accepted:SetBootstrapped"
+			}
+			if _, err := srv.ReportAvailableNodeHost(c, &pb.NodeHostInfo{RaftAddress: "a1", RPCAddress: "rpc-a1", Region: "r"}); err == nil {
+				return "accepted:ReportAvailableNodeHost"
+			}
+		}
+		if sc, err := srv.GetShards(ctx(), &pb.Empty{}); err != nil || len(sc.Shards) != 0 {
+			return "accepted:state-changed"
+		}
+		return "refused"
 	}
 	panic(kind)
 }
@@ -106,7 +135,7 @@ func main() {
 	defer run.Close()
 	// 1. malformed configuration calls, each in a child process
 	safe := map[string]bool{}
-	for _, kind := range []string{"nomembers", "emptyapp", "emptyregions", "mismatchedregions", "morecounts", "countsonly"} {
+	for _, kind := range []string{"nomembers", "emptyapp", "emptyregions", "mismatchedregions", "morecounts", "countsonly", "badtype1", "badtype3", "badtypeneg", "donectx"} {
 		cmd := exec.Command(os.Args[0], "-probe", kind)
 		outb, err := cmd.CombinedOutput()
 		res := ""
